@@ -632,7 +632,12 @@ class ExprMixin:
                     if fi.is_classmethod:
                         return FuncV(fi, cls_obj=ClassV(obj.cls))
                     return FuncV(fi, self_obj=obj)
-                return self.eval_in_module(r[2].module, r[1])
+                v = self.eval_in_module(r[2].module, r[1])
+                if isinstance(v, (ListV, DictV)):
+                    # a mutable class-level default is shared by all instances
+                    v.tags = frozenset(v.tags) | {'global'}
+                    v.desc = f'class attribute {r[2].name}.{name}'
+                return v
             ga = obj.cls.lookup('__getattr__')
             if ga is not None and ga[0] == 'method':
                 self.event('getattr-proxy', node, obj=obj, attr=name)
